@@ -1,10 +1,11 @@
 // C18 kernels: thin wrappers around etl::str*/mem* (W=0) or etl::wcs*/wmem* (W=1). No logic besides marshalling
 // (pointer results are returned as offsets from the argument, -1 = null pointer).
-//   G=0: the public entry as this compiler builds it (under clang: __builtin_* for strlen/strcmp/strncmp/strchr/memchr/memcmp/
-//        memcpy/memmove/wmemcpy/wmemmove, the portable etl::detail templates for everything else).
-//   G=1: for the functions with a builtin branch, the expression of the `#else` branch of the public header, i.e. what a gcc build
-//        executes (etl::detail::* with exactly the template arguments used there). Other functions: same as G=0.
-// Natively (g++) both are the gcc configuration.
+// Ten public headers (strlen strcmp strncmp strchr memchr memcmp memcpy memmove wmemcpy wmemmove) have two branches:
+// `#if defined(__clang__)` forwards to __builtin_*, `#else` uses the portable etl::detail templates. G selects the configuration:
+//   G=0: the clang configuration, G=1: the gcc configuration.
+// Where the compiler at hand builds the selected configuration itself the public entry is called (clang: G=0, g++ native replay:
+// G=1); otherwise the expression of the other branch of that header is replicated literally (CLANGCFG / GCCCFG below).
+// All other functions have a single implementation: G makes no difference.
 #include "vf.h"
 #include <etl/cstring.hpp>
 #include <etl/cwchar.hpp>
@@ -13,6 +14,14 @@
 #endif
 #ifndef G
 #define G 0
+#endif
+#if defined(__clang__)
+#define GCCCFG G          /* replicate the #else branch */
+#define CLANGCFG 0
+#else
+#define GCCCFG 0
+#define CLANGCFG (!G)     /* replicate the #if defined(__clang__) branch */
+#include <wchar.h>
 #endif
 using sz = etl::size_t;
 using pd = long;
@@ -27,24 +36,30 @@ template <class P> static pd off(P const* r, P const* base) { return r != nullpt
 // ---------------------------------------------------------------- narrow
 K sz k_strlen(char const* s)
 {
-#if G
+#if GCCCFG
     return etl::detail::strlen<char, etl::size_t>(s);
+#elif CLANGCFG
+    return __builtin_strlen(s);
 #else
     return etl::strlen(s);
 #endif
 }
 K int k_strcmp(char const* a, char const* b)
 {
-#if G
+#if GCCCFG
     return etl::detail::strcmp<char>(a, b);
+#elif CLANGCFG
+    return __builtin_strcmp(a, b);
 #else
     return etl::strcmp(a, b);
 #endif
 }
 K int k_strncmp(char const* a, char const* b, sz n)
 {
-#if G
+#if GCCCFG
     return etl::detail::strncmp<char, etl::size_t>(a, b, n);
+#elif CLANGCFG
+    return __builtin_strncmp(a, b, n);
 #else
     return etl::strncmp(a, b, n);
 #endif
@@ -55,16 +70,20 @@ K pd k_strcat(char* d, char const* s) { return off(etl::strcat(d, s), d); }
 K pd k_strncat(char* d, char const* s, sz n) { return off(etl::strncat(d, s, n), d); }
 K pd k_strchr(char const* s, int c)
 {
-#if G
+#if GCCCFG
     return off(etl::detail::strchr<char const>(s, c), s);
+#elif CLANGCFG
+    return off(static_cast<char const*>(__builtin_strchr(s, c)), s);
 #else
     return off(etl::strchr(s, c), s);
 #endif
 }
 K pd k_strchr_nc(char* s, int c)
 {
-#if G
+#if GCCCFG
     return off(etl::detail::strchr<char>(s, c), s);
+#elif CLANGCFG
+    return off(static_cast<char*>(__builtin_strchr(s, c)), s);
 #else
     return off(etl::strchr(s, c), s);
 #endif
@@ -79,16 +98,20 @@ K pd k_strstr(char const* h, char const* n) { return off(etl::strstr(h, n), h); 
 K pd k_strstr_nc(char* h, char* n) { return off(etl::strstr(h, n), h); }
 K pd k_memcpy(char* d, char const* s, sz n)
 {
-#if G
+#if GCCCFG
     return off(static_cast<char*>(etl::detail::memcpy<unsigned char, etl::size_t>(d, s, n)), d);
+#elif CLANGCFG
+    return off(static_cast<char*>(__builtin_memcpy(d, s, n)), d);
 #else
     return off(static_cast<char*>(etl::memcpy(d, s, n)), d);
 #endif
 }
 K pd k_memmove(char* d, char const* s, sz n)
 {
-#if G
+#if GCCCFG
     return off(reinterpret_cast<char*>(etl::detail::memmove<unsigned char>(d, s, n)), d);
+#elif CLANGCFG
+    return off(static_cast<char*>(__builtin_memmove(d, s, n)), d);
 #else
     return off(static_cast<char*>(etl::memmove(d, s, n)), d);
 #endif
@@ -96,29 +119,35 @@ K pd k_memmove(char* d, char const* s, sz n)
 K pd k_memset(char* d, int c, sz n) { return off(static_cast<char*>(etl::memset(d, c, n)), d); }
 K int k_memcmp(char const* a, char const* b, sz n)
 {
-#if G
+#if GCCCFG
     auto const* l = reinterpret_cast<unsigned char const*>(a);
     auto const* r = reinterpret_cast<unsigned char const*>(b);
     return etl::detail::strncmp<unsigned char, etl::size_t>(l, r, n);
+#elif CLANGCFG
+    return __builtin_memcmp(a, b, n);
 #else
     return etl::memcmp(a, b, n);
 #endif
 }
 K pd k_memchr(char const* s, int c, sz n)
 {
-#if G
+#if GCCCFG
     auto const* const p = reinterpret_cast<unsigned char const*>(s);
     auto const ch       = static_cast<unsigned char>(c);
     return off(reinterpret_cast<char const*>(etl::detail::memchr<unsigned char const, etl::size_t>(p, ch, n)), s);
+#elif CLANGCFG
+    return off(static_cast<char const*>(__builtin_memchr(static_cast<void const*>(s), c, n)), s);
 #else
     return off(static_cast<char const*>(etl::memchr(static_cast<void const*>(s), c, n)), s);
 #endif
 }
 K pd k_memchr_nc(char* s, int c, sz n)
 {
-#if G
+#if GCCCFG
     auto* p = reinterpret_cast<unsigned char*>(s);
     return off(reinterpret_cast<char*>(etl::detail::memchr(p, static_cast<unsigned char>(c), n)), s);
+#elif CLANGCFG
+    return off(static_cast<char*>(__builtin_memchr(static_cast<void*>(s), c, n)), s);
 #else
     return off(static_cast<char*>(etl::memchr(static_cast<void*>(s), c, n)), s);
 #endif
@@ -144,16 +173,20 @@ K pd k_strstr(wchar_t const* h, wchar_t const* n) { return off(etl::wcsstr(h, n)
 K pd k_strstr_nc(wchar_t* h, wchar_t* n) { return off(etl::wcsstr(h, n), h); }
 K pd k_memcpy(wchar_t* d, wchar_t const* s, sz n)
 {
-#if G
+#if GCCCFG
     return off(n == 0 ? d : etl::detail::strncpy(d, s, n), d);
+#elif CLANGCFG
+    return off(::wmemcpy(d, s, n), d);   /* g++ has no __builtin_wmemcpy; the clang builtin lowers to this libc call */
 #else
     return off(etl::wmemcpy(d, s, n), d);
 #endif
 }
 K pd k_memmove(wchar_t* d, wchar_t const* s, sz n)
 {
-#if G
+#if GCCCFG
     return off(etl::detail::memmove<wchar_t, etl::size_t>(d, s, n), d);
+#elif CLANGCFG
+    return off(::wmemmove(d, s, n), d);  /* likewise */
 #else
     return off(etl::wmemmove(d, s, n), d);
 #endif
